@@ -441,8 +441,10 @@ C19Event(o, k, b) ==
                         IF better THEN Near(got * den, LinVal2(FunParams(fd), num, den, u), tol)
                         ELSE Near(got * den, 0 - LinVal2(FunParams(fd), 0 - num, den, u), tol)
              IN branchOK(isBetter) \/ (~ExactBefore(o, k) /\ NAbs(num) <= Slack /\ den # 0 /\ branchOK(~isBetter))
+           (* the property's domain: anchoring alternatives with positive coefficients *)
+           coefDomain == \A i \in DOMAIN aa : Has(aa[i], "coefficient") /\ aa[i].coefficient > 0
            refOK == /\ rp.id = strat /\ DOMAIN rp.criteria = C
-                    /\ \A c \in C : rp.criteria[c] \in AnchorAdmissibleM(ty[c], aa, allv(c), strat, IF ExactBefore(o, k) THEN 0 ELSE Slack)
+                    /\ ~coefDomain \/ \A c \in C : rp.criteria[c] \in AnchorAdmissibleM(ty[c], aa, allv(c), strat, IF ExactBefore(o, k) THEN 0 ELSE Slack)
            scalingOK == /\ DOMAIN rep.criteriaScaling = C
                         /\ \A c \in C : LET rg == RangeOf(before, c) sc == rep.criteriaScaling[c] IN
                               /\ sc.valuesRange.min = rg.min /\ sc.valuesRange.max = rg.max
@@ -524,5 +526,51 @@ C08PairOK(o1, o2) ==
        /\ (FiredVec(o2)[pos] /\ ~FiredVec(o1)[pos]) => ProbVec(o2)[pos] > ProbVec(o1)[pos]
 (* over N seeds a bias with probability pn/4 fires N*pn/4 times, within 7 standard deviations *)
 C08FreqOK(count, n, pn) == (4 * count - n * pn) * (4 * count - n * pn) <= 49 * n * pn * (4 - pn)
+
+
+(* ---------------- listener algebra: what removal / addition of criteria does to the method's parameters -------- *)
+(* thresholds lists of the two threshold heuristics, restricted / extended consistently with the criteria *)
+LevelsCover(st) ==
+  st.levelParams.kind = "thresholds" =>
+     \A i \in DOMAIN st.levelParams.thresholds : StCritIds(st) \subseteq DOMAIN st.levelParams.thresholds[i]
+(* Choquet: a capacity for every non-empty subset of the current criteria *)
+ChoquetCover(o, st) ==
+  Method(o) = "choquetIntegral" =>
+     (SUBSET StCritIds(st)) \ {{}} \subseteq {SeqSet(st.weightSets[i].set) : i \in DOMAIN st.weightSets}
+CapOf(st, S) == st.weightSets[CHOOSE i \in DOMAIN st.weightSets : SeqSet(st.weightSets[i].set) = S].w
+
+(* C15 / C07: after omission the kept criteria keep exactly their parameters *)
+C15Params(o, k, b) ==
+  LET e == BiasEvents(o)[k]
+      before == BeforeOf(o, k)
+      after == e.after
+      m == Method(o)
+      kept == StCritIds(before) \cap StCritIds(after)
+  IN IF ~e.fired \/ ~Has(e.report.props, "omittedCriteria") THEN {}
+     ELSE (IF \A c \in kept : WeightIn(m, after, c) = WeightIn(m, before, c) THEN {} ELSE {BFail("C15", "kept-parameters-changed", "")})
+          \cup (IF LevelsCover(after) /\ ChoquetCover(o, after) THEN {} ELSE {BFail("C15", "parameters-not-restricted", "")})
+          \cup (IF m = "choquetIntegral" /\ ChoquetCover(o, after) /\ ChoquetCover(o, before)
+                   /\ \E S \in (SUBSET kept) \ {{}} : CapOf(after, S) # CapOf(before, S)
+                THEN {BFail("C15", "kept-capacities-changed", "")} ELSE {})
+          \cup (IF after.levelParams.kind = "thresholds" /\ before.levelParams.kind = "thresholds"
+                   /\ LevelsCover(after) /\ LevelsCover(before)
+                   /\ ~(Len(after.levelParams.thresholds) = Len(before.levelParams.thresholds)
+                        /\ \A i \in DOMAIN after.levelParams.thresholds : \A c \in kept :
+                              after.levelParams.thresholds[i][c] = before.levelParams.thresholds[i][c])
+                THEN {BFail("C15", "kept-thresholds-changed", "")} ELSE {})
+
+(* C18 / C07: after an added criterion the parameters cover it; Choquet: the new singleton's capacity is a fraction *)
+(* in [0,1) and every superset S + new takes the capacity of S ("extends the parameters consistently")          *)
+C18Params(o, k, newId) ==
+  LET e == BiasEvents(o)[k]
+      before == BeforeOf(o, k)
+      after == e.after
+      u == o.case.unit
+  IN (IF LevelsCover(after) /\ ChoquetCover(o, after) THEN {} ELSE {BFail("C18", "parameters-not-extended", "")})
+     \cup (IF Method(o) = "choquetIntegral" /\ ChoquetCover(o, after) /\ ChoquetCover(o, before)
+              /\ ~(/\ CapOf(after, {newId}) >= 0 /\ CapOf(after, {newId}) <= u
+                   /\ \A S \in (SUBSET StCritIds(before)) \ {{}} :
+                         CapOf(after, S) = CapOf(before, S) /\ CapOf(after, S \cup {newId}) = CapOf(before, S))
+           THEN {BFail("C18", "capacities-not-extended-consistently", "")} ELSE {})
 
 =============================================================================
